@@ -82,6 +82,8 @@ pub trait Backend: Sized + Send + Sync + 'static {
     type EF: Field + ExtensionField<Self::BF> + BasedVectorSpace<Self::BF> + Send + Sync;
     /// `CircuitProverData<SC>` of the backend's STARK configuration
     type Prepared: Send + Sync;
+    /// `BatchStarkProof<SC>` (public metadata fields; `Serialize`/`Deserialize` for the concrete SC)
+    type Proof;
     const NAME: &'static str;
     const D: usize;
 
@@ -94,12 +96,26 @@ pub trait Backend: Sized + Send + Sync + 'static {
     /// AIRs, preprocessed columns, commitments (verifier-fixed data) for `circuit`.
     fn prepare(circuit: &Circuit<Self::EF>, packing: &TablePacking)
     -> Result<Self::Prepared, String>;
+    /// Real prover. Not panic-safe (wrap in `vpcore::quiet_catch`); honours the H4 tamper
+    /// callback installed on the calling thread.
+    fn prove(
+        prepared: &Self::Prepared,
+        packing: &TablePacking,
+        traces: &Traces<Self::EF>,
+    ) -> Result<Self::Proof, Verdict>;
+    /// Real verifier on a (possibly altered) proof object. Not panic-safe.
+    fn verify(packing: &TablePacking, proof: &Self::Proof) -> Verdict;
     /// Real prover + verifier. Not panic-safe: call through [`accept`].
     fn prove_verify(
         prepared: &Self::Prepared,
         packing: &TablePacking,
         traces: &Traces<Self::EF>,
-    ) -> Verdict;
+    ) -> Verdict {
+        match Self::prove(prepared, packing, traces) {
+            Ok(p) => Self::verify(packing, &p),
+            Err(v) => v,
+        }
+    }
 }
 
 /// Table name used in violation keys: the field / width variant is dropped, the permutation
@@ -140,6 +156,7 @@ macro_rules! backend {
             type BF = $bf;
             type EF = $ef;
             type Prepared = CircuitProverData<$sc>;
+            type Proof = p3_circuit_prover::BatchStarkProof<$sc>;
             const NAME: &'static str = $label;
             const D: usize = $d;
 
@@ -174,19 +191,23 @@ macro_rules! backend {
                 let pd = ProverData::from_airs_and_degrees(&cfg, &airs, &degs);
                 Ok(CircuitProverData::new(pd, prim, nonprim))
             }
-            fn prove_verify(
+            fn prove(
                 prepared: &Self::Prepared,
                 packing: &TablePacking,
                 traces: &Traces<$ef>,
-            ) -> Verdict {
+            ) -> Result<Self::Proof, Verdict> {
                 let mut prover = BatchStarkProver::new($cfg()).with_table_packing(packing.clone());
                 let reg: fn(&mut BatchStarkProver<$sc>) = $register;
                 reg(&mut prover);
-                let proof = match prover.prove_all_tables(traces, prepared) {
-                    Ok(p) => p,
-                    Err(e) => return Verdict::ProveErr(format!("{e:?}")),
-                };
-                match prover.verify_all_tables::<$ef>(&proof) {
+                prover
+                    .prove_all_tables(traces, prepared)
+                    .map_err(|e| Verdict::ProveErr(format!("{e:?}")))
+            }
+            fn verify(packing: &TablePacking, proof: &Self::Proof) -> Verdict {
+                let mut prover = BatchStarkProver::new($cfg()).with_table_packing(packing.clone());
+                let reg: fn(&mut BatchStarkProver<$sc>) = $register;
+                reg(&mut prover);
+                match prover.verify_all_tables::<$ef>(proof) {
                     Ok(()) => Verdict::Accepted,
                     Err(e) => Verdict::VerifyErr(format!("{e:?}")),
                 }
@@ -323,20 +344,13 @@ fn add_u64<BF: PrimeField64>(x: BF, d: u64) -> BF {
     x + BF::from_u64(d % BF::ORDER_U64)
 }
 
-/// Runs the real prover and verifier on `traces` (release build: no debug constraint checks,
-/// so forged traces reach the verifier), under `quiet_catch`.
-///
-/// `edits` are applied to the main-trace matrices through hook H4; the callback is installed
-/// on this thread for the duration of the call and cleared afterwards (also on panic).
-/// An edit that addresses a non-existing cell makes the call return
-/// `Verdict::Panic("bad cell edit ...")` — callers enumerate cells from captured matrices.
-pub fn accept_with<B: Backend>(
-    prepared: &B::Prepared,
-    packing: &TablePacking,
-    traces: &Traces<B::EF>,
+/// Runs `f` with the H4 tamper callback of this thread set to "apply `edits`, optionally copy
+/// the matrices", under `quiet_catch`; the callback is cleared afterwards (also on panic).
+fn with_tamper<B: Backend, T>(
     edits: &[CellEdit],
     capture: bool,
-) -> Run<B::BF> {
+    f: impl FnOnce() -> T,
+) -> (Result<T, String>, Option<Vec<RowMajorMatrix<B::BF>>>, Option<String>) {
     use std::cell::RefCell;
     use std::rc::Rc;
     let captured: Rc<RefCell<Option<Vec<RowMajorMatrix<B::BF>>>>> = Rc::new(RefCell::new(None));
@@ -369,20 +383,66 @@ pub fn accept_with<B: Backend>(
             },
         )));
     }
-    let r = vpcore::quiet_catch(|| B::prove_verify(prepared, packing, traces));
+    let r = vpcore::quiet_catch(f);
     p3_circuit_prover::verif_hooks::set_matrix_tamper(None);
-    let verdict = match r {
-        Ok(v) => v,
-        Err(p) => Verdict::Panic(p),
-    };
-    if let Some(b) = bad.borrow_mut().take() {
+    let b = bad.borrow_mut().take();
+    let m = captured.borrow_mut().take();
+    (r, m, b)
+}
+
+/// Runs the real prover and verifier on `traces` (release build: no debug constraint checks,
+/// so forged traces reach the verifier), under `quiet_catch`.
+///
+/// `edits` are applied to the main-trace matrices through hook H4; the callback is installed
+/// on this thread for the duration of the call and cleared afterwards (also on panic).
+/// An edit that addresses a non-existing cell makes the call return
+/// `Verdict::Panic("bad cell edit ...")` — callers enumerate cells from captured matrices.
+pub fn accept_with<B: Backend>(
+    prepared: &B::Prepared,
+    packing: &TablePacking,
+    traces: &Traces<B::EF>,
+    edits: &[CellEdit],
+    capture: bool,
+) -> Run<B::BF> {
+    let (r, matrices, bad) =
+        with_tamper::<B, _>(edits, capture, || B::prove_verify(prepared, packing, traces));
+    if let Some(b) = bad {
         return Run {
             verdict: Verdict::Panic(b),
             matrices: None,
         };
     }
-    let matrices = captured.borrow_mut().take();
+    let verdict = match r {
+        Ok(v) => v,
+        Err(p) => Verdict::Panic(p),
+    };
     Run { verdict, matrices }
+}
+
+/// Proof object of (possibly forged / cell-edited) traces, for checks that alter the proof
+/// (C16). `Err(verdict)` = the prover refused or panicked.
+pub fn prove_with<B: Backend>(
+    prepared: &B::Prepared,
+    packing: &TablePacking,
+    traces: &Traces<B::EF>,
+    edits: &[CellEdit],
+) -> Result<B::Proof, Verdict> {
+    let (r, _m, bad) = with_tamper::<B, _>(edits, false, || B::prove(prepared, packing, traces));
+    if let Some(b) = bad {
+        return Err(Verdict::Panic(b));
+    }
+    match r {
+        Ok(x) => x,
+        Err(p) => Err(Verdict::Panic(p)),
+    }
+}
+
+/// Real verifier on a proof object, under `quiet_catch`.
+pub fn verify_proof<B: Backend>(packing: &TablePacking, proof: &B::Proof) -> Verdict {
+    match vpcore::quiet_catch(|| B::verify(packing, proof)) {
+        Ok(v) => v,
+        Err(p) => Verdict::Panic(p),
+    }
 }
 
 /// `accept(circuit-prepared, traces)`: prove + verify, no tampering.
